@@ -1,6 +1,8 @@
 module verifharness
 
-go 1.21
+go 1.22.0
+
+toolchain go1.23.5
 
 require (
 	github.com/alicebob/miniredis/v2 v2.23.0
@@ -9,6 +11,7 @@ require (
 	github.com/gorilla/websocket v1.5.0
 	github.com/mochi-mqtt/server/v2 v2.0.0
 	go.etcd.io/bbolt v1.3.5
+	golang.org/x/tools v0.29.0
 )
 
 require (
@@ -48,6 +51,8 @@ require (
 	golang.org/x/sys v0.28.0 // indirect
 	golang.org/x/text v0.21.0 // indirect
 	google.golang.org/protobuf v1.33.0 // indirect
+	golang.org/x/mod v0.22.0 // indirect
+	golang.org/x/sync v0.10.0 // indirect
 	gopkg.in/yaml.v3 v3.0.1 // indirect
 )
 
